@@ -395,18 +395,46 @@ def extra_stage(rep, broken, exe, tier):
              f'{STATS["g0_finite"]} returned a finite answer (then checked like any other)')
 
 
+HARNESS_SOURCES = [os.path.join(C.VERIF, 'harness', 'c11.cpp')] + C.repo_lib_sources(
+    ['problem/type-erased-problem.cpp', 'util/demangled-typename.cpp', 'util/print.cpp',
+     'problem/problem-counters.cpp'])
+
+
+def replay(r):
+    """`checks/replay.py <file>`: re-run the recorded op through the real code, the model and the monitor."""
+    op = (r.get('payload') or {}).get('op')
+    if not op:
+        print('replay: no input recorded (broken proof / tie):', r.get('what'))
+        return 1
+    exe, log = C.build_exe('c11', HARNESS_SOURCES)
+    if exe is None:
+        print(log[-2000:])
+        return 1
+    h, _, _ = C.run_lines(exe, [op])
+    print('impl :', h[0] if h else None)
+    dexe = C.driver_exe('drv_c11')
+    if os.path.exists(dexe):
+        d, _, _ = C.run_lines(dexe, [op])
+        print('model:', d[0] if d else None)
+        print('correspondence:', 'agree' if h and d and h[0].strip() == d[0].strip() else 'DIFFER')
+    m = monitor(op, h[0], {}) if h else 'no output'
+    print('monitor:', m)
+    if isinstance(m, tuple) and any(k.get('key') == m[1] and k.get('status') == 'open' for k in C.load_known('C11')):
+        print('KNOWN-FINDING:', m[1])
+        return 0
+    return 1 if m else 0
+
+
 if __name__ == '__main__':
     sys.exit(C.standard_check(
         'C11', sys.argv,
         gen_scripts=['gen_c11.py'], modules=['Alpaqa.Props.C11'], driver='drv_c11',
         extra_sources=['Alpaqa/Gen/C11.lean', 'Alpaqa/Model/C11.lean', 'Alpaqa/Proofs/C11Vec.lean',
                        'Alpaqa/Proofs/C11Scalar.lean', 'Alpaqa/Proofs/C11Step.lean',
-                       'Alpaqa/Proofs/C11Loop.lean', 'Alpaqa/Proofs/C11Real.lean', 'Alpaqa/Proofs/Basic.lean',
+                       'Alpaqa/Proofs/C11Loop.lean', 'Alpaqa/Proofs/C11Real.lean', 'Alpaqa/Proofs/C11Restrict.lean', 'Alpaqa/Proofs/Basic.lean',
                        'Alpaqa/Model/Vec.lean', 'Alpaqa/Model/Scalar.lean', 'Driver/C11.lean'],
         harness_name='c11',
-        harness_sources=[os.path.join(C.VERIF, 'harness', 'c11.cpp')] + C.repo_lib_sources(
-            ['problem/type-erased-problem.cpp', 'util/demangled-typename.cpp', 'util/print.cpp',
-             'problem/problem-counters.cpp']),
+        harness_sources=HARNESS_SOURCES,
         gen_ops=gen_ops, monitor=monitor, nontrivial=nontrivial, extra_stage=extra_stage,
         n_quick=4000, n_thorough=80000,
         trusted_base=[
